@@ -281,7 +281,7 @@ ADD7 = {
     "C12": ("; argument-identity audit of self-recursive request functions; guard/derivation audit of stores to the per-host release time", " Also: no operation restarts itself by recursion with unchanged arguments; a host's release time is only replaced with a look at what it holds."),
     "C14": ("; origin audit of the index reader's returns; operand audit of ref.EqualRepository shared with C04.R16", " Also: the layout index is decoded by the call that returns it, never remembered; 'nothing to transfer' is decided on the references' own fields."),
     "C16": ("; origin audit of the list handed to the ranked search; dominance of normalize() over comparisons with the local platform in Parse", " Also: the platform lookup ranks the whole index; short notations are completed after normalisation."),
-    "C17": ("; response typestate over every reghttp Do of the registry scheme; lockset state at the layout throttle's blocking acquires", " Also: no function of the registry scheme returns with an open response (found D24); no waiting for a layout slot with the layout mutex held."),
+    "C17": ("; response typestate over every reghttp Do of the registry scheme; lockset state at the layout throttle's blocking acquires; who-may-clear audit of the field the blob reader closes", " Also: no function of the registry scheme returns with an open response (found D24); no waiting for a layout slot with the layout mutex held; the source a blob reader has to close is never dropped without closing it."),
     "C18": ("; must-not-reach from the failure edges of the backup copy and of the target lookup to the overwriting copy; must-not-return between backup and overwrite; page-merge rule shared with C06.R11", " Also: a failed backup stops the overwrite and a failed target lookup is not taken for an absent tag (both violated on the unchanged tree: known findings D21, D22); nothing decides 'no overwrite' after the backup was written; tag pages are merged without an order assumption."),
 }
 for _pid, (_t, _x) in ADD7.items():
